@@ -200,6 +200,15 @@ class Ctx:
         return fn
 
 
+def _ival(spec):
+    """the interval of a time-based node, as a number or (ival_str) in the string form the API also accepts"""
+    v = spec['interval']
+    if spec.get('ival_str'):
+        ms = int(round(v * 1000))
+        return '%ds' % (ms // 1000) if ms % 1000 == 0 else '%dms' % ms
+    return v
+
+
 def build_async(prog, log, ctx):
     """real nodes for a program that may contain asynchronous ops"""
     from streamz import Stream
@@ -212,17 +221,17 @@ def build_async(prog, log, ctx):
         if op == 'buffer':
             n = ups[0].buffer(spec['n'])
         elif op == 'delay':
-            n = ups[0].delay(spec['interval'])
+            n = ups[0].delay(_ival(spec))
         elif op == 'rate_limit':
-            n = ups[0].rate_limit(spec['interval'])
+            n = ups[0].rate_limit(_ival(spec))
         elif op == 'latest':
             n = ups[0].latest()
         elif op == 'map_async':
             n = ups[0].map_async(ctx.mk_async_fn(nid, spec), parallelism=spec.get('parallelism', 1))
         elif op == 'timed_window':
-            n = ups[0].timed_window(spec['interval'])
+            n = ups[0].timed_window(_ival(spec))
         elif op == 'timed_window_unique':
-            n = ups[0].timed_window_unique(spec['interval'], key=_realkey(spec.get('key', 'ident')),
+            n = ups[0].timed_window_unique(_ival(spec), key=_realkey(spec.get('key', 'ident')),
                                            keep=spec.get('keep', 'first'))
         elif op == 'sink':
             n = ups[0].sink(ctx.mk_sink(nid, spec))
